@@ -251,6 +251,17 @@ def ep_disable(r, s):
             s.TP(pick_gap(r, s.period()))
 
 
+def ep_forced(r, s):
+    """the application's own heartbeat calls between polls: forced for all devices, forced for one device, the unforced call"""
+    for _ in range(r.randint(1, 4)):
+        s.T(r.choice([0, 1, 500, s.period() // 2, s.period() - 1, s.period() + 1]))
+        if all(c[2] for c in s.cfg) and s.sync is not None:
+            s.ops.append(r.choice(['Q hb 1', 'Q hb 1', 'Q hd %d' % r.randrange(-1, s.ndev + 1), 'Q hb 0']))
+            if s.ops[-1] == 'Q hb 0' and s.pend_until is None:
+                s.last_read = s.t
+        s.TP(r.choice([0, 1, 1000, s.period()]))
+
+
 def ep_mixed(r, s):
     """devices with different values, then the setter for all devices with "keep": every device keeps its own"""
     if s.ndev < 2:
@@ -290,6 +301,8 @@ def scenario(r, ndev=None, mode=None, cold=None, t0=None, n_eps=None, huge=False
             ep_change(r, s)
         elif x < 0.34:
             ep_mixed(r, s)
+        elif x < 0.41:
+            ep_forced(r, s)
         elif x < 0.52:
             ep_polls(r, s)
         elif x < 0.70:
@@ -371,7 +384,8 @@ def _judge(cfg, ops, per_op, sync0, sent_later):
     devs = [_Dev() for _ in range(ndev)]
     t = t0
     sync = None
-    full = all((not o) or o[0] in ('T', 'P', 'H', 'C') for o in ops)      # scope of the schedule rules: clock, polls, setter, claim restarts
+    # scope of the schedule rules: clock, polls, setter, claim restarts, and the application's own heartbeat calls (SendHeartbeat)
+    full = all((not o) or o[0] in ('T', 'P', 'H', 'C') or (o[0] == 'Q' and len(o) >= 3 and o[1] in ('hb', 'hd')) for o in ops)
     last_poll = None
 
     def do_open(ts):
@@ -417,6 +431,44 @@ def _judge(cfg, ops, per_op, sync0, sent_later):
             if ln != 8 or len(data) != 8 or data[3:] != [0xff] * 5:
                 return k, 'payload:op %d: heartbeat data %s (length %d) is not interval(2) sequence(1) ff ff ff ff ff' % (k, bytes(data).hex(), ln)
             by_dev.setdefault(src - src0, []).append(e)
+        forced = name == 'Q' and len(o) >= 3 and (o[1] == 'hd' or (o[1] == 'hb' and o[2] == '1'))
+        if name == 'Q' and len(o) >= 3 and o[1] == 'hb' and o[2] == '0':
+            name = 'P'        # SendHeartbeat() without force is the heartbeat part of a poll: the same schedule rules
+        if forced and full and sync is not None and active:
+            # SendHeartbeat(true) / SendHeartbeat(iDev): every addressed device outside its claim window sends one heartbeat NOW with the
+            # sequence value 0xff (the counter does not move) and its configured interval; SendHeartbeat(true) also moves on to the next
+            # grid point (a heartbeat that was due is replaced by the forced one)
+            tg = list(range(ndev)) if o[1] == 'hb' else ([int(o[2])] if 0 <= int(o[2]) < ndev else [])
+            for i in range(ndev):
+                d = devs[i]
+                got = by_dev.get(i, [])
+                if i not in tg:
+                    if got:
+                        return k, 'forced:op %d: device %d sent a heartbeat, the call addressed %s' % (k, i, tg)
+                    continue
+                if d.claim is not None and (t == d.claim or t - d.claim >= (1 << 31) - 1):
+                    full = False           # boundary millisecond of the claim window: both readings allowed, stop judging the schedule
+                    break
+                claiming = d.claim is not None and t < d.claim
+                if d.claim is not None and not claiming:
+                    d.claim = None
+                if claiming:
+                    if got:
+                        return k, 'claiming-sent:op %d t=%d: device %d sent a forced heartbeat inside its claim window' % (k, t, i)
+                    continue
+                if d.due is None or not d.known:
+                    full = False           # forcing a disabled / not yet scheduled heartbeat: outside the property text
+                    break
+                if len(got) != 1:
+                    return k, 'forced:op %d t=%d: device %d sent %d heartbeat(s) on a forced call, expected one' % (k, t, i, len(got))
+                data = got[0][3]
+                if (data[0] | data[1] << 8) != d.period // 10:
+                    return k, 'interval-field:op %d: device %d states %d (x10 ms) in a forced heartbeat, configured interval %d ms' % (k, i, data[0] | data[1] << 8, d.period)
+                if data[2] != 0xff:
+                    return k, 'sequence:op %d: device %d sent sequence %d in a forced heartbeat, expected 255' % (k, i, data[2])
+                if o[1] == 'hb':
+                    d.due = first_grid_after(sync, d.offset, d.period, t)
+            continue
         if name != 'P':
             if hbs and full:
                 return k, 'schedule-early:op %d (%s) is not a poll but sent heartbeat(s)' % (k, ' '.join(o))
